@@ -319,7 +319,8 @@ where
         if let State::OnDisk(file) = &self.inner {
             file.file_size()
         } else {
-            0
+            // Index file may exist even when index is held in memory (loaded or stale file)
+            std::fs::metadata(self.name.as_path()).map_or(0, |m| m.len())
         }
     }
 }
